@@ -5,38 +5,7 @@
 #include "spec/iauth_model.h"
 #include "spec/set_model.h"
 
-/* ------------------------------------------------------------------ symbolic inputs */
-struct iauth_request in_req;          /* every scalar / text field arbitrary */
-unsigned int in_required;             /* iauth_flags: what the loaded modules require */
-int in_have_timer;
-int in_sock; short in_event;
-struct { char s[80]; } in_text;       /* a server-supplied argument (over-long allowed) */
-struct { char s[80]; } in_text2;
-int in_argc;
-int in_modcb_holds, in_modcb_soft;    /* what a module callback does to the counters */
-
-static struct iauth_request *req;
-
-/* a live, undecided request with arbitrary contents, indexed in the request table */
-static struct iauth_request *mk_request(void)
-{
-    struct set_node *node = malloc(sizeof(struct set_node) + sizeof(struct iauth_request));
-    struct iauth_request *r;
-    V_ASSUME(node != NULL);
-    r = set_node_data(node);
-    V_IN(in_req); V_IN(in_required); V_IN(in_have_timer);
-    *r = in_req;
-    /* text fields are NUL-terminated (INV: established by the bounded copies, C06) */
-    r->hostname[HOSTLEN] = 0; r->cli_username[USERLEN] = 0; r->auth_username[USERLEN] = 0;
-    r->nickname[NICKLEN] = 0; r->realname[REALLEN] = 0; r->account[ACCOUNTLEN] = 0;
-    r->class[CLASSLEN] = 0; r->text_addr[IRC_NTOP_MAX - 1] = 0;
-    r->timeout = in_have_timer ? malloc(1) : NULL;
-    r->data.compare = set_compare_voidp; r->data.cleanup = NULL; r->data.root = NULL; r->data.count = 0;
-    V_ASSUME(!RESPONDED(r));                       /* INV: live requests are undecided */
-    iauth_flags.bits[0] = in_required & ~(1u << IAUTH_RESPONDED);   /* calc_iauth_flags, proved in C02.calc_flags */
-    G.req = r; G.live = 1;
-    return r;
-}
+#include "harness/iauth_common.h"
 
 /* ====================================================================== the gate (C02) */
 void h_check_request(void)
@@ -112,9 +81,10 @@ void h_timeout(void)
     ready = spec_gate_ready(req);
     iauth_timeout(in_sock, in_event, req);        /* REAL; gate by contract */
     V_ASSERT(G.gate_evals == 1, "C03: the timeout handler re-evaluates the gate");
-    V_ASSERT((G.accepts == 1) == (ready != 0), "C03: an expired timeout releases every soft hold: a ready client is accepted in this step");
-    V_ASSERT(!G.live || req->soft_holds == 0, "C03: after expiry no soft hold remains");
-    V_ASSERT(!G.live || req->holds == in_req.holds, "C02: the timeout releases soft holds only (an unmet +! still blocks)");
+    V_ASSERT((G.accepts == 1) == (ready != 0), "C03: an expired timeout stands in for missing answers: a ready client is accepted in this step");
+    V_ASSERT(!G.live || EXPIRED(req), "C03: expiry is remembered - later events see an expired timeout");
+    V_ASSERT(!G.live || (req->holds == in_req.holds && req->soft_holds == in_req.soft_holds),
+             "C02: the timeout leaves the hold counters alone (an unmet +! still blocks; what is awaited stays recorded)");
     V_CANARY();
 }
 
@@ -123,32 +93,6 @@ void h_timeout(void)
  * of a decision module's data hooks: they may move the hold counters and send queries for
  * a LIVE request, they never retire it (the real hooks of iauth_xquery are proved against
  * this in the C03.xq_* jobs). */
-static struct iauth_module gmod;
-static void gm_effect(struct iauth_request *r)
-{
-    V_ASSERT(r == G.req && G.live, "C01: a module hook is run for a retired request");
-    r->holds = in_modcb_holds;
-    r->soft_holds = in_modcb_soft;
-}
-static void gm_field_change(struct iauth_request *r, enum iauth_flags flag) { G.cb_field_change++; G.cb_last_flag = (int)flag; gm_effect(r); }
-static void gm_user_info(struct iauth_request *r) { G.cb_user_info++; gm_effect(r); }
-static void gm_password(struct iauth_request *r, const char pw[]) { G.cb_password++; G.cb_password_text = pw; gm_effect(r); }
-static void gm_disconnect(struct iauth_request *r) { G.cb_disconnect++; (void)r; }
-static void gm_registered(struct iauth_request *r, int from_ircd) { G.registered_cb++; (void)r; (void)from_ircd; }
-static void gm_new_client(struct iauth_request *r) { G.cb_new_client++; (void)r; }
-
-static void install_ghost_module(void)
-{
-    static struct set mods;
-    gmod.owner = "ghost";
-    gmod.field_change = gm_field_change; gmod.user_info = gm_user_info; gmod.password = gm_password;
-    gmod.disconnect = gm_disconnect; gmod.registered = gm_registered; gmod.new_client = gm_new_client;
-    gmod.node.l = gmod.node.r = gmod.node.prev = gmod.node.next = NULL;
-    mods.compare = set_compare_charp; mods.cleanup = NULL; mods.root = &gmod.node; mods.count = 1;
-    iauth_modules = &mods;
-    V_IN(in_modcb_holds); V_IN(in_modcb_soft);
-}
-
 static unsigned int flags0;
 static void handler_pre(void)
 {
